@@ -5,6 +5,7 @@ import (
 	"fmt"
 	"math/rand/v2"
 
+	pipeline "github.com/buildkite/go-pipeline"
 	"github.com/buildkite/go-pipeline/ordered"
 	"github.com/buildkite/go-pipeline/warning"
 	"gopkg.in/yaml.v3"
@@ -183,6 +184,9 @@ func checkC08(c *run.Ctx) {
 			c.Feature("gram", d.FeatureVector())
 		})
 	})
+	// Fallback: a step of a known kind that fails to load halfway (a later field is wrongly typed) is kept as an
+	// unknown step; the mappings nested in it, some of them already visited by the typed loader, stay in document order.
+	c.Phase("fallback", func() { c08Fallback(c) })
 	// Phase 3: programmatic maps survive encode/decode with keys, values and order.
 	n3 := c.N(800, 60000)
 	c.Phase("programmatic", func() {
@@ -402,4 +406,82 @@ func checkC08(c *run.Ctx) {
 		"phase 1: documents aimed at order-preserving positions (pipeline env block, plugins as one mapping, mappings nested in extras of every step kind, in wait/input/trigger contents, in group and pipeline extras, unknown steps) with mappings of 0-300 keys mixing plain, quoting-needing, numeric-/boolean-looking, unquoted int/bool, empty and Unicode keys, nested to depth 4, optionally with `<<` merges (single and sequences) inside ordered positions, as JSON and YAML; the key sequence of both marshallings (independent readers) must equal the document's (merge resolver for merged keys); phase 2: general grammar documents with the same order check; phase 3: programmatically built maps (nested maps, slices, strings, bools, ints, non-integral floats, nil) through MarshalJSON/UnmarshalJSON and yaml.Marshal/Unmarshal compared with Equal and with the harness tree. distinct_nontrivial counts distinct feature vectors / (size class, depth) classes",
 		nil,
 		[]string{"order inside plugin configs and at Go-map-backed levels is not significant", "the key `<<` is known finding K4 and not generated", "integral floats may come back as integers (JSON has one number type) and are not generated in phase 3", "YAML leg skipped for data with multi-line strings that begin with whitespace"})
+}
+
+// c08Fallback writes command steps as compact JSON: nested mappings mixing keys the typed loader knows with keys
+// it does not, in random order (matrix, an adjustment, a plugin configuration, a retry block, an unknown field),
+// then one wrongly typed field. Whenever the library keeps the step as an unknown step, its JSON form must be
+// the step as written, key for key in document order.
+func c08Fallback(c *run.Ctx) {
+	n := c.N(600, 12000)
+	bad := []string{`"cache":42`, `"signature":42`, `"plugins":42`, `"env":42`, `"cache":[1,{}]`, `"matrix_x":1,"cache":true,"zz":0`}
+	c.Parallel("fb", n, func(i int, r *rand.Rand) {
+		shuffled := func(items []string) string {
+			r.Shuffle(len(items), func(a, b int) { items[a], items[b] = items[b], items[a] })
+			out := "{"
+			for j, it := range items {
+				if j > 0 {
+					out += ","
+				}
+				out += it
+			}
+			return out + "}"
+		}
+		extra := func(pfx string) []string {
+			var out []string
+			for j, k := 0, 1+r.IntN(4); j < k; j++ {
+				out = append(out, fmt.Sprintf(`"%s%c%d":%d`, pfx, 'a'+rune(r.IntN(26)), j, r.IntN(100)))
+			}
+			return out
+		}
+		adj := shuffled(append(extra("j"), `"with":{"os":"linux"}`, `"soft_fail":true`))
+		matrix := shuffled(append(extra("m"), `"setup":{"os":["linux","mac"]}`, `"adjustments":[`+adj+`]`))
+		retry := shuffled(append(extra("r"), `"manual":`+shuffled(append(extra("q"), `"allowed":false`))))
+		plug := shuffled(append(extra("p"), `"image":"x"`))
+		unk := shuffled(append(extra("u"), `"nested":`+shuffled(extra("v"))))
+		fields := []string{`"command":"echo hi"`, `"matrix":` + matrix, `"retry":` + retry, `"plugins":[{"docker#v1":` + plug + `}]`, `"zfield":` + unk, `"label":"l"`}
+		b := bad[i%len(bad)]
+		if i%len(bad) == 2 {
+			fields = append(fields[:3], fields[4:]...)
+		}
+		r.Shuffle(len(fields), func(a, b int) { fields[a], fields[b] = fields[b], fields[a] })
+		at := r.IntN(len(fields) + 1)
+		fields = append(fields[:at], append([]string{b}, fields[at:]...)...)
+		step := "{"
+		for j, f := range fields {
+			if j > 0 {
+				step += ","
+			}
+			step += f
+		}
+		step += "}"
+		text := `{"steps":[` + step + `]}`
+		id := run.CaseID("fb", i)
+		p, perr := parseText(text)
+		c.Eval(1)
+		if perr != nil && !warning.Is(perr) {
+			c.Count("fallback_documents_rejected", 1)
+			return
+		}
+		if p == nil || len(p.Steps) != 1 {
+			c.Count("fallback_documents_without_one_step", 1)
+			return
+		}
+		if _, ok := p.Steps[0].(*pipeline.UnknownStep); !ok {
+			c.Count("fallback_documents_kept_as_typed_step", 1)
+			return
+		}
+		c.Count("fallback_steps_kept_as_unknown_step", 1)
+		c.Count("fallback_unknown_steps_with_bad_field_"+fmt.Sprint(i%len(bad)), 1)
+		jb, err := safeJSONMarshal(p.Steps[0])
+		if err != nil {
+			c.Violation(id, map[string]any{"what": "unknown step kept after a failed load does not marshal: " + err.Error(), "document": text})
+			return
+		}
+		if string(jb) != step {
+			c.Violation(id, map[string]any{"what": "a step kept as an unknown step after a wrongly typed field does not come back as written (nested mapping out of document order, or data differs)", "document": text, "step_as_written": step, "json": string(jb)})
+			return
+		}
+		c.Feature("fb", i%len(bad), at, len(fields))
+	})
 }
